@@ -190,7 +190,7 @@ def run_shard(shard, ctx):
                     ctx.evaluations += 1
                     ctx.hist["header_sections"] += 1
                     if got != expected:
-                        e1.report(ctx, "note-events", text, HEADER_PROBE, [expected], got if len(str(got)) < 600 else str(got)[:600], "section [%s], %d ticks walking through all combinations and flags (line order %s, S/E lines %s): note events differ from the lines written" % (header, len(ticks), order, inter))
+                        e1.report(ctx, "note-events", text, HEADER_PROBE, [expected], got if len(str(got)) < 600 else str(got)[:600], "section [%s], %d ticks walking through all combinations and flags (line order %s, S/E lines %s): note events differ from the lines written" % (header, len(ticks), order, inter), extra_case=dict(probe="header"))
         return
     if kind == "long":
         _, gap, inter = shard
@@ -265,4 +265,6 @@ def run_shard(shard, ctx):
 
 
 def replay(case):
+    if case.get("probe") == "header":
+        return e1.replay_text_case(case, e1.compile_probe(HEADER_PROBE), "note-events", HEADER_PROBE)
     return e1.replay_text_case(case, probe, "note-events", PROBE_SRC)
